@@ -5,21 +5,35 @@
 From FA.Base Require Import PyAst Value Eval Traverse.
 From FA.Gen Require Import TablesUtil.
 From FA.Model Require Import Capture.
-From FA.Proofs Require Import Refine CaptureProofs CaptureSem.
+From FA.Proofs Require Import Refine CaptureProofs CaptureSem CaptureGen.
 
-(* --- capture_freezes (partial: first-order fragment [fragc], snapshot of plain literals) ---
-   Full statement aimed at:  eval later (rewrite_captured ce e) = eval (vals ce ++ later) e  for every expression.
-   Proved: the refinement direction, for every backend, on the fragment [fragc] (names, constants, attributes,
-   unary/binary operators, conditionals, subscripts, tuples, lists, method calls with and without a one-parameter
-   lambda, single-for comprehensions; nested to any depth, with any shadowing) and snapshots whose entries are
-   int/bool/str/None literals without attribute table ([lit_env]).  Missing: called lambdas / helpers (C05's
-   clause), class-constant folding, keyword arguments, comparisons and boolean operators, the converse direction. *)
+(* --- capture_freezes (partial: names bound to plain literals; every expression; equality) ---
+   Full statement aimed at:  eval later (rewrite_captured ce e) = eval (vals ce ++ later) e  for every expression and every
+   snapshot, [vals ce] ranging over literals, class/module constants and inlinable helpers.
+   Proved: exactly that equation - both directions, for every backend and EVERY expression tree (all node classes,
+   comparisons, boolean operators, dictionaries, keyword arguments, called lambdas, comprehensions, any nesting and
+   shadowing) - for ANY snapshot (module globals full of functions, classes, modules ...) provided the names that occur
+   in the expression are bound there to int/bool/str/None literals or not at all ([lit_names ce e]) and no attribute is
+   folded ([ce_attrs ce = []]).  The emitted tree needs nothing from any later environment.
+   Missing: occurrences of names holding classes / modules / enums (attribute folding: the reference semantics has no
+   class objects; the forward direction would be vacuous and the converse a statement about getattr) and of captured
+   helpers (C05's clause: [capture_then_resolve_partial] below and C05.v). *)
 Theorem capture_freezes_partial :
-  forall (B : backend) (ops : list string) ce e e' later v,
-    lit_env ce -> fragc e -> rewrite_captured ce e = Ok e' ->
-    eval B ops (vals ce ++ later) e = Some v -> eval B ops later e' = Some v.
-Proof. exact capture_freezes_frag. Qed.
+  forall (B : backend) (ops : list string) ce e e',
+    ce_attrs ce = [] -> lit_names ce e -> rewrite_captured ce e = Ok e' ->
+    forall later, eval B ops later e' = eval B ops (vals ce ++ later) e.
+Proof. exact rw_sem. Qed.
 Print Assumptions capture_freezes_partial.
+
+(* the whole callable path (freeze, then resolve the called lambdas written in the query): one direction, because
+   resolving a call may drop an argument whose evaluation fails.  [first_order]: no lambda parameter is used as the
+   callee of a call by name - the reference semantics has no function values. *)
+Theorem capture_then_resolve_partial :
+  forall (B : backend) (ops : list string) ce e e1 e2,
+    ce_attrs ce = [] -> lit_names ce e -> rewrite_captured ce e = Ok e1 -> first_order e1 -> resolve_called e1 = Ok e2 ->
+    forall later v, eval B ops (vals ce ++ later) e = Some v -> eval B ops later e2 = Some v.
+Proof. exact parse_callable_sem. Qed.
+Print Assumptions capture_then_resolve_partial.
 
 (* --- capture_respects_scope: over all expression trees, by induction with the ignore stack as invariant ---
    Whatever the snapshot holds under a name that is on the ignore stack (a parameter of the passed lambda or of a
@@ -59,21 +73,36 @@ Print Assumptions capture_gate_pipeline.
 
 (* ---------- non-vacuity and pins ---------- *)
 Definition B0 : backend := {| attr_sem := fun _ _ => None; meth_sem := fun _ _ _ _ => None; fun_sem := fun _ _ _ => None |}.
-Definition ce0 : cenv := {| ce_nonlocals := [("x", CVal (CInt 2))]; ce_globals := [("x", CVal (CInt 1)); ("g", CVal (CInt 10))]; ce_attrs := [] |}.
+Definition ce0 : cenv :=
+  {| ce_nonlocals := [("x", CVal (CInt 2))];
+     ce_globals := [("x", CVal (CInt 1)); ("helper", CFun None); ("K", CVal (CObj "type" "K#0")); ("g", CVal (CInt 10))];
+     ce_attrs := [] |}.
+Ltac lit_names_tac := intros n Hn; simpl in Hn; repeat (destruct Hn as [<-|Hn]; [vm_compute; try discriminate; exact I|]); destruct Hn.
 Definition jets : value := VList [VDict [VStr "pt"] [VInt 5]; VDict [VStr "pt"] [VInt 7]].
 
 (* lambda e: e.jets.Select(lambda j: j.pt + x + g) with closure x = 2 hiding the global x = 1 (FC1), later rebound *)
 Example freezes_runs :
   let body := Call (Attr (Attr (Name "e") "jets") "Select")
                    [Lambda ["j"] (BinOp BAdd (BinOp BAdd (Attr (Name "j") "pt") (Name "x")) (Name "g"))] [] [] in
-  fragc body /\ lit_env ce0 /\
+  lit_names ce0 body /\
   exists body', rewrite_captured ce0 body = Ok body' /\
     eval B0 ["Select"] (vals ce0 ++ [("x", VInt 99); ("e", VDict [VStr "jets"] [jets])]) body = Some (VList [VInt 17; VInt 19]) /\
     eval B0 ["Select"] [("x", VInt 99); ("e", VDict [VStr "jets"] [jets])] body' = Some (VList [VInt 17; VInt 19]).
 Proof.
-  split; [repeat constructor|]. split; [repeat constructor; simpl; discriminate|].
+  split; [lit_names_tac|].
   eexists; split; [vm_compute; reflexivity | split; vm_compute; reflexivity].
 Qed.
+
+(* comparisons, boolean operators, keyword arguments and a called lambda with a shadowing parameter, later rebinding *)
+Example freezes_runs_all_nodes :
+  let body := BoolOp And [Compare (Name "g") [CGt; CGt] [Name "x"; Const (CInt 0)];
+                          Call (Lambda ["x"] (BinOp BAdd (Name "x") (Name "g"))) [Name "x"] [] [];
+                          Call (Lambda ["q"; "x"] (BinOp BSub (Name "q") (Name "x"))) [] [Some "x"; Some "q"] [Name "x"; Name "g"]] in
+  lit_names ce0 body /\
+  exists body', rewrite_captured ce0 body = Ok body' /\
+    eval B0 [] (vals ce0 ++ [("x", VInt 99); ("g", VInt 98)]) body = Some (VInt 8) /\
+    eval B0 [] [("x", VInt 99); ("g", VInt 98)] body' = Some (VInt 8).
+Proof. split; [lit_names_tac|]. eexists; split; [vm_compute; reflexivity | split; vm_compute; reflexivity]. Qed.
 
 (* shadowing: nested lambda parameter, comprehension target (F08) and the passed lambda's own parameter *)
 Example scope_runs :
